@@ -2,24 +2,90 @@ import EgglogVerif.Model.ProofCk
 namespace Driver
 open EgglogVerif.ProofCk
 
-/-- `pk check T <head> <kids,comma> … S leaf l r | S sym p l r | S trans p q l r | S congr p i q l r …` -/
-def pkParse : List String → Array Term → List Step → Option (Array Term × List Step)
-  | [], ts, ss => some (ts, ss.reverse)
-  | "T" :: h :: ks :: rest, ts, ss => do
+/-- pattern tokens: `v<k>` | `a<h>:<n>` followed by `n` patterns -/
+partial def pkPat : List String → Option (Pat × List String)
+  | [] => none
+  | tok :: rest =>
+    if tok.startsWith "v" then do
+      let k ← (tok.drop 1).toNat?
+      some (.var k, rest)
+    else if tok.startsWith "a" then
+      match (tok.drop 1).toString.splitOn ":" with
+      | [h, n] => do
+        let h ← h.toNat?
+        let n ← n.toNat?
+        let rec go : Nat → List String → List Pat → Option (List Pat × List String)
+          | 0, r, acc => some (acc.reverse, r)
+          | k + 1, r, acc => do
+            let (p, r') ← pkPat r
+            go k r' (p :: acc)
+        let (kids, rest') ← go n rest []
+        some (.app h kids, rest')
+      | _ => none
+    else none
+
+partial def pkFacts : Nat → List String → List RFact → Option (List RFact × List String)
+  | 0, r, acc => some (acc.reverse, r)
+  | k + 1, "F" :: any :: r, acc => do
+    let (a, r1) ← pkPat r
+    let (b, r2) ← pkPat r1
+    pkFacts k r2 (⟨any == "1", a, b⟩ :: acc)
+  | _, _, _ => none
+
+partial def pkActs : Nat → List String → List Act → Option (List Act × List String)
+  | 0, r, acc => some (acc.reverse, r)
+  | k + 1, "U" :: r, acc => do
+    let (a, r1) ← pkPat r
+    let (b, r2) ← pkPat r1
+    pkActs k r2 (.union a b :: acc)
+  | k + 1, "E" :: r, acc => do
+    let (a, r1) ← pkPat r
+    pkActs k r1 (.expr a :: acc)
+  | _, _, _ => none
+
+def pkNats : Nat → List String → List Nat → Option (List Nat × List String)
+  | 0, r, acc => some (acc.reverse, r)
+  | k + 1, x :: r, acc => do pkNats k r ((← x.toNat?) :: acc)
+  | _, _, _ => none
+
+def pkPairs : List Nat → Option (List (Nat × Nat))
+  | [] => some []
+  | a :: b :: r => do some ((a, b) :: (← pkPairs r))
+  | _ => none
+
+/-- `pk check R <nb> <nh> F <any> <pat> <pat> … U <pat> <pat> | E <pat> … T <head> <kids,comma> …
+S leaf l r | S rule r np p… ns v t … l r | S sym p l r | S trans p q l r | S congr p i q l r …` -/
+partial def pkParse : List String → List Rule → Array Term → List Step → Option (List Rule × Array Term × List Step)
+  | [], rs, ts, ss => some (rs.reverse, ts, ss.reverse)
+  | "R" :: nb :: nh :: rest, rs, ts, ss => do
+    let (body, r1) ← pkFacts (← nb.toNat?) rest []
+    let (head, r2) ← pkActs (← nh.toNat?) r1 []
+    pkParse r2 (⟨body, head⟩ :: rs) ts ss
+  | "T" :: h :: ks :: rest, rs, ts, ss => do
     let h ← h.toNat?
     let kids ← if ks = "-" then some [] else (ks.splitOn ",").mapM String.toNat?
-    pkParse rest (ts.push ⟨h, kids⟩) ss
-  | "S" :: "leaf" :: l :: r :: rest, ts, ss => do pkParse rest ts (⟨.leaf, ← l.toNat?, ← r.toNat?⟩ :: ss)
-  | "S" :: "sym" :: p :: l :: r :: rest, ts, ss => do pkParse rest ts (⟨.sym (← p.toNat?), ← l.toNat?, ← r.toNat?⟩ :: ss)
-  | "S" :: "trans" :: p :: q :: l :: r :: rest, ts, ss => do pkParse rest ts (⟨.trans (← p.toNat?) (← q.toNat?), ← l.toNat?, ← r.toNat?⟩ :: ss)
-  | "S" :: "congr" :: p :: i :: q :: l :: r :: rest, ts, ss => do pkParse rest ts (⟨.congr (← p.toNat?) (← i.toNat?) (← q.toNat?), ← l.toNat?, ← r.toNat?⟩ :: ss)
-  | _, _, _ => none
+    pkParse rest rs (ts.push ⟨h, kids⟩) ss
+  | "S" :: "leaf" :: l :: r :: rest, rs, ts, ss => do pkParse rest rs ts (⟨.leaf, ← l.toNat?, ← r.toNat?⟩ :: ss)
+  | "S" :: "rule" :: r :: np :: rest, rs, ts, ss => do
+    let (ps, r1) ← pkNats (← np.toNat?) rest []
+    match r1 with
+    | ns :: r2 => do
+      let (flat, r3) ← pkNats (2 * (← ns.toNat?)) r2 []
+      let σ ← pkPairs flat
+      match r3 with
+      | l :: rr :: r4 => pkParse r4 rs ts (⟨.rule (← r.toNat?) ps σ, ← l.toNat?, ← rr.toNat?⟩ :: ss)
+      | _ => none
+    | _ => none
+  | "S" :: "sym" :: p :: l :: r :: rest, rs, ts, ss => do pkParse rest rs ts (⟨.sym (← p.toNat?), ← l.toNat?, ← r.toNat?⟩ :: ss)
+  | "S" :: "trans" :: p :: q :: l :: r :: rest, rs, ts, ss => do pkParse rest rs ts (⟨.trans (← p.toNat?) (← q.toNat?), ← l.toNat?, ← r.toNat?⟩ :: ss)
+  | "S" :: "congr" :: p :: i :: q :: l :: r :: rest, rs, ts, ss => do pkParse rest rs ts (⟨.congr (← p.toNat?) (← i.toNat?) (← q.toNat?), ← l.toNat?, ← r.toNat?⟩ :: ss)
+  | _, _, _, _ => none
 
 def pkStep (toks : List String) : String :=
   match toks with
   | "check" :: rest =>
-    match pkParse rest #[] [] with
-    | some (ts, ss) => toString (checkProof ts ss)
+    match pkParse rest [] #[] [] with
+    | some (rs, ts, ss) => toString (checkProof rs ts ss)
     | none => "bad-op"
   | _ => "bad-op"
 
